@@ -237,12 +237,18 @@ Section Readback.
         cbn [norm_elem elem_load int_of] in *; f_equal; now apply int_roundtrip.
     - replace (match v with _ => v end) with v in Hi' by (destruct v; reflexivity).
       rewrite Hi in Hi'. inversion Hi'; subst items'.
-      unfold float_validate_many in Hv. destruct (forallb is_num items) eqn:Ef; cbn [negb] in Hv; [|discriminate].
-      rewrite forallb_forall in Ef. specialize (Ef x Hin).
+      (* every element was converted by validate_many, so it is a number (not a ctypes instance) *)
+      assert (Hconv : exists b0, num_to_f64 x = inr b0).
+      { clear Hs. revert Hv Hin. clear. induction items as [|y r IH]; intros Hv Hin; [contradiction|].
+        cbn [float_validate_many] in Hv. unfold float_isinf_conv in Hv at 1.
+        destruct (num_to_f64 y) as [e|b0] eqn:En; [discriminate|].
+        destruct Hin as [<-|Hin]; [eauto|]. apply IH; auto.
+        destruct (if snd ct =? 4 then f32_is_inf (narrow_bits b0) else f64_is_inf b0); [discriminate|exact Hv]. }
+      destruct Hconv as [b0 Hb0].
       assert (Hk1 : fst ct <=? 1 = false) by (unfold fct_ok in He; lia).
       assert (Hk2 : fst ct =? 2 = true) by (unfold fct_ok in He; lia).
       unfold cstore in Hs.
-      destruct x; try discriminate;
+      destruct x; try (cbn [num_to_f64] in Hb0; discriminate);
         (rewrite Hk1, Hk2 in Hs; destruct (num_to_f64 _) as [y|b'] eqn:En in Hs; [discriminate|];
          inversion Hs; subst; cbn [norm_elem]; rewrite En; now apply elem_load_store_float).
     - unfold byte_irec_ok in He. assert (Hr : irec_ok r = true) by lia.
@@ -353,7 +359,12 @@ Section ReadbackTop.
       unfold guard_string_len in Ev. destruct (Z.of_nat n - 1 <? Z.of_nat (length cs)) eqn:El; [discriminate|].
       destruct (all_ascii cs) eqn:Ea; cbn [negb] in Ev; [|discriminate].
       unfold s_set in H. pose proof (take_until_nul_length cs) as Hpl.
-      destruct (length (take_until_nul cs) <? n)%nat eqn:E1; [|lia]. cbn [ok_or] in H. inversion H; subst m'.
+      destruct (length (take_until_nul cs) <? n)%nat eqn:E1; [|lia]. cbn [ok_or] in H.
+      set (m0 := if (1 <? n)%nat && (length cs <? n)%nat then splice m (f_off f) (repeat 0 n) else m) in H.
+      assert (L0 : length m0 = length m).
+      { unfold m0. destruct ((1 <? n)%nat && (length cs <? n)%nat); [|reflexivity].
+        apply splice_length. rewrite repeat_length. lia. }
+      inversion H; subst m'.
       cbn [norm_scalar].
       rewrite sub_splice_prefix by (rewrite ?app_length; cbn [length]; lia).
       rewrite <- app_assoc. cbn [app].
